@@ -13,40 +13,7 @@ DRIVERS = ["drv_clientsub"]
 LEAN_TARGETS = ["Pyrtma.Props.C02"]
 LEVEL = "proof"
 
-
-def _f4(clause: str, case: Any) -> bool:
-    """C02-F4: a handshake answered later than `_wait_for_acknowledgement` waits (`connectLate`) leaves the object
-    connected and un-reset.  Signature: a life-cycle history, a `connectLate` at or before the failing call, the failing
-    clause is the agreement clause (the stale sets are reported, nothing is delivered)."""
-    if not clause.startswith("connected_reported_equals_delivered"):
-        return False
-    c = (case or {}).get("case") or {}
-    if not c.get("life"):
-        return False
-    try:
-        at = int(clause.split("op=")[1].split()[0])
-    except (IndexError, ValueError):
-        return False
-    # expand `sub reconnect` (two phases, one op) is one op for the driver too: indices are op indices
-    return any(op[0] == "connectLate" for op in c["ops"][:at + 1])
-
-
-MATCHERS: Dict[str, Any] = {"C02-F4": _f4}
-
-
-def _match(clause: str, case: Any):
-    """known_findings.json decides; the slice's own fragment is used until the coordinator has merged it"""
-    import json
-    fid = C.match_finding(PROP, clause, case, MATCHERS)
-    if fid:
-        return fid
-    frag = C.VERIF / "findings_fragments" / f"{PROP}.json"
-    if frag.exists():
-        known = {e["id"] for e in C.known_findings(PROP)}
-        for e in json.loads(frag.read_text()).get("findings", []):
-            if e.get("status") == "open" and e["id"] not in known and e["id"] in MATCHERS and MATCHERS[e["id"]](clause, case):
-                return e["id"]
-    return None
+MATCHERS: Dict[str, Any] = {}      # no open finding (C02-F4 is fixed by /repo 5d9f32d: nothing is suppressed)
 TRUSTED = [
     "Lean 4.33.0 kernel", "axioms: propext, Classical.choice, Quot.sound only (audited by #print axioms)",
     "harness/client_corr.py: in-memory duplex connections, scripted select, frozen clock stand for socket/select/"
@@ -144,7 +111,8 @@ def _feed(res: C.Result, cases: List[Any]):
             ex["verdicts"][v.split()[0]] += 1
             if v.startswith("fail"):
                 cl = v[5:]
-                res.failures.append(C.Failure(clause=cl.split()[0], case=jc, detail=cl, finding=_match(cl, jc)))
+                res.failures.append(C.Failure(clause=cl.split()[0], case=jc, detail=cl,
+                                              finding=C.match_finding(PROP, cl, jc, MATCHERS)))
         if len(case["ops"]) >= 3 and tag in ("random", "seq3", "directed", "life-random", "life-directed"):
             res.sample({"tag": tag, "protocol": blk[:14], "verdicts": r["props"]})
 
@@ -194,7 +162,7 @@ def run(res: C.Result, deep: bool):
                 "the manager or not, the manager discovering dead connections, subscription calls) after 3 prefixes on 5 "
                 "set-ups (dynamic / static id, other modules holding ids, cursor at the wrap-around, every dynamic id "
                 "taken); seeded random histories of <= 25 operations with random other modules and cursor positions, "
-                "handshakes the manager answers too late included (open finding C02-F4)"
+                "handshakes the manager answers too late included (C02-F4, fixed: the client ends disconnected)"
                 % (3 if deep else 2, 3 if deep else 2))
     res.assumptions.append("the manager is pumped (MessageManager.run() until idle) after every client phase: "
                            "control frames are processed before the next probe (no in-flight window is modelled)")
